@@ -278,10 +278,12 @@ def reach_problems(prop, res):
 
 
 def setup_all():
+    import wasm as W
     t0 = time.time()
     D.build("dbg")
     D.build("plain")
     D.build("avx2")
+    W.build()
     M.setup()
     D.log("setup done in %.1fs" % (time.time() - t0))
     return 0
